@@ -56,6 +56,15 @@ pub mod tokio_openssl {
 }
 
 //@extract_type file=actix-tls/src/accept/mod.rs item="enum TlsError<TlsErr, SvcErr>"
+impl<TlsErr> TlsError<TlsErr, Infallible> {
+//@extract file=actix-tls/src/accept/mod.rs item="impl<TlsErr> TlsError<TlsErr, Infallible> / fn into_service_error" ret=r props=C18 name=accept::into_service_error
+//@spec
+    ensures
+        // the cast changes the type only: a time-out stays a time-out, a handshake error keeps its cause   [C18]
+        self is Timeout ==> r is Timeout,
+        self matches TlsError::Tls(e) ==> r matches TlsError::Tls(e2) && e2 == e,
+//@end
+}
 #[verifier::reject_recursive_types(IO)]
 pub struct TlsStream<IO>(pub tokio_openssl::SslStream<IO>);
 pub type InnerTls<IO> = tokio_openssl::SslStream<IO>;
